@@ -38,7 +38,8 @@ const preamble = `/A [1 2 3] def /B 5 array def /S (a` + "\xe9" + `c) def /T 4 s
 	`/D 3 dict def D /x 1 put /E << /x 2 /y (s) >> def /P {1 add} def /Q {pop} def ` +
 	`/count 99 def ` + // an operator name shadowed in userdict: lookups must find the topmost definition
 	`/ E /Font defineresource pop / 7 def ` + // the empty name is a name like any other: a font and a value are known under it
-	`/R {(xyz)} def` // a string literal inside a procedure body: every run of the body pushes the same string object
+	`/R {(xyz)} def ` + // a string literal inside a procedure body: every run of the body pushes the same string object
+	`/F 80 dict def` // an empty dictionary with room for the long literals, known under a name: what an operator stores into it must be found through the name
 
 var pool = []string{
 	// integers incl. boundaries
@@ -59,6 +60,7 @@ var pool = []string{
 	"A", "A 1 2 getinterval", "A 0 2 getinterval", "B", "[]",
 	// dictionaries
 	"D", "E", "D", // (D twice: second reference to the same dictionary)
+	"F", // empty, large enough to take a copy of the 70-entry literal below
 	// distinct one-entry dictionaries whose keys are the names an implementation
 	// might use as probes ("0", "1", …): equal length, different identity
 	"<< /a 1 >>", "<< /0 2 >>", "<< /1 2 >>",
